@@ -23,6 +23,9 @@ CLAIMS = {
  "C15": dict(ref="7/C15",
    text="Proof (Coq) over Gallina twins of both implementations: parse_tree (Python order of checks vs Rust order, u32 overflow, digits-only modes) returns the same entries or fails in both for every byte string, id length and strict flag; key_entry's byte comparison and Rust's cmp_with_suffix order every pair of entries alike (names without NUL and '/'); apply_delta Rust = Python on every delta (C03's theorem, usize arithmetic and dev-profile panics modelled); bisect_find_sha twins agree and the Rust i64 arithmetic cannot overflow for indexes below 2^62. Differential check on the implementation with the extension rebuilt from the working tree: exhaustive short mode strings, truncations, both id lengths; dictionaries with prefix collisions; virtual id tables with indexes around 2^31; C03's delta sets; _merge_entries/_count_blocks/_is_tree on random trees and blobs (no model: compared twin against twin only). Partial: repository-level invariance is not stated as a theorem; names containing NUL or '/' and probes that are not 20/32 bytes are outside the stated domain.",
    note="Four theorems closed under the global context."),
+ "C13": dict(ref="7/C13",
+   text="Proof (Coq): _find_lcas (flags, _DNC propagation, final redundancy filter) returns exactly the maximal common ancestors of c1 and c2s for every DAG, every query and every order in which the work list is popped (the pop position is an arbitrary function, which covers every assignment of timestamps, ties and backwards clocks, since timestamps only order the heap); can_fast_forward is exactly the ancestor test. Invariant proof over the loop (soundness of the three flag maps, propagation closure for nodes off the work list, candidates) plus completeness along ancestor paths and existence of a maximal common ancestor above any common ancestor. Correspondence: every DAG up to 4 commits (5 in thorough) x timestamp vectors over {0,1,2} x all query pairs vs the implementation and an independent closure-based reference; random DAGs to 300 commits with skewed/negative stamps through find_merge_base / can_fast_forward / independent on a MemoryRepo; git merge-base --all/--is-ancestor on a sample. Partial: the theorem is conditional on the fuelled model loop finishing (never observed to run out: the runner would report 'fuel'); independent/find_octopus_base and the history walker (Walker, topo order) are checked on the implementation only; commit-graph-backed parents are C14's concern.",
+   note="Two theorems; axiom used: Classical_Prop.classic (standard library), for the existence of a maximal element."),
 }
 props = [json.loads(l) for l in open(os.path.join(V, "properties.jsonl"))]
 base = json.load(open("/root/.vp/BASELINE.json"))
